@@ -266,11 +266,13 @@ class Run:
         self.stats = Stats()
         self.violations = []
         self.objs = {}          # slot -> (qr, Model)
+        self.streams = {}       # id -> SimStream re-used across calls
         self.touched = set()    # versions some object of this process compiled
         self.steps = 0
         self.shape = []         # op kinds, for the history hash / fingerprints
         self.nontrivial = {"C11": False, "C15": False, "C16": False, "C18": False}
         self._pending = None
+        self.resynced = False
 
     # -- bookkeeping -------------------------------------------------------
     def viol(self, prop, cls, msg, fp, soft=False):
@@ -314,12 +316,39 @@ class Run:
         self.log.ev("prologue", c["kind"], c.get("versions"))
 
     # -- operations --------------------------------------------------------
+    def _fractional_border(self, qr, value, exc, channel):
+        """A border that is not an integer: the statement is silent on the
+        conversion, so rejection (ValueError/TypeError) and acceptance are both
+        fine - but an accepted one must *take effect* as an integer >= 0.
+        -> effective border, or None when rejected."""
+        fp = f"{channel}|border={value!r}"
+        self.nontrivial["C18"] = True
+        self.stats.inc(f"c18.{channel}.border.fractional")
+        self.stats.add("c18.tuples", ("border", repr(value), channel))
+        if exc is not None:
+            if type(exc).__name__ not in ("ValueError", "TypeError"):
+                self.viol("C18", f"C18/wrong-exception-at-{'construction' if channel == 'ctor' else 'assignment'}",
+                          f"border = {value!r} raised {exc!r}", fp)
+            return None
+        try:
+            eff = qr.border
+        except Exception as e:  # noqa
+            eff = repr(e)
+        if not isinstance(eff, int) or isinstance(eff, bool) or eff < 0 or \
+                (value >= 0 and abs(eff - value) >= 1):
+            self.viol("C18", "C18/out-of-range-border-took-effect",
+                      f"border = {value!r} was accepted and the border now reads {eff!r}", fp)
+        return eff
+
     def op_new(self, op):
         import qrcode
         kw = {k: dec_value(v) for k, v in op["kw"].items()}
+        frac_border = isinstance(kw.get("border"), float)
         full = {"version": None, "error_correction": 0, "mask_pattern": None,
                 "border": 4, "box_size": 10}
         full.update(kw)
+        if frac_border:
+            full["border"] = 0       # decided separately below
         expected = set()
         for attr in ("version", "mask_pattern", "border", "box_size"):
             ok, ex = in_range(attr, full[attr])
@@ -338,11 +367,19 @@ class Run:
         fp = "ctor|" + ",".join(f"{a}={full[a]!r}" for a in sorted(kw)
                                 if a != "error_correction" and
                                 not in_range(a, full[a])[0]) if expected else "ctor|valid"
+        if frac_border and not expected:
+            eff = self._fractional_border(None if exc is not None else qr, kw["border"], exc,
+                                          "ctor")
+            if eff is None:
+                return
+            full["border"] = eff
         if expected:
             self.nontrivial["C18"] = True
             if exc is None:
                 self.viol("C18", "C18/out-of-range-accepted-at-construction",
                           f"QRCode({kw}) constructed an object", fp)
+            if frac_border:
+                expected = expected | {"ValueError", "TypeError"}
             if type(exc).__name__ not in expected:
                 self.viol("C18", "C18/wrong-exception-at-construction",
                           f"QRCode({kw}) raised {exc!r}, expected {sorted(expected)}", fp)
@@ -386,6 +423,19 @@ class Run:
         m.changed_since_compile = True
         self.stats.inc("probe.clear")
         self.log.ev("clear", op["obj"])
+
+    def _maybe_compiled_to_same(self, m):
+        """A call that may or may not have compiled (aborted by our fault, or
+        refused) left the symbol unchanged while a compile was due.  If a fresh
+        compile gives exactly the symbol the object already held (e.g. after
+        add_data(b"")), "unchanged" does not prove that no compile happened: the
+        model can then no longer insist that the next renderer compiles."""
+        if m.need != "yes" or m.cur == EMPTY:
+            return
+        r = self.ref(m.spec(("make", True)))
+        if r["exc"] is None and r["mods"] == m.cur:
+            m.need = "unsure"
+            self.stats.inc("probe.identical_recompile_ambiguity")
 
     def _compare_compile(self, qr, m, r, exc, opkind, lazy_prop=None):
         """Common part of every operation that is promised to compile."""
@@ -469,6 +519,28 @@ class Run:
                 m.changed_since_compile = True
             m.level = value
             self.log.ev("set", op["obj"], attr, value)
+            return
+        if attr == "border" and isinstance(value, float):
+            exc = None
+            try:
+                qr.border = value
+            except Exception as e:  # noqa
+                exc = e
+            self.log.ev("set", op["obj"], attr, repr(value), type(exc).__name__)
+            eff = self._fractional_border(qr, value, exc, "assign")
+            if eff is None:
+                try:
+                    now = qr.border
+                except Exception as e:  # noqa
+                    now = repr(e)
+                if now != m.border:
+                    self.viol("C18", "C18/rejected-value-took-effect",
+                              f"after rejected border = {value!r} the setting reads {now!r}, "
+                              f"was {m.border!r}", f"assign|border={value!r}")
+            else:
+                if eff != m.border:
+                    m.changed_since_compile = True
+                m.border = eff
             return
         ok, expected = in_range(attr, value)
         self.stats.inc(f"c18.assign.{attr}.{'valid' if ok else 'invalid'}")
@@ -566,6 +638,8 @@ class Run:
                     self.viol("C11", "C11/modules-changed-by-render",
                               f"{opkind}: symbol changed to neither old nor fresh", fp)
                 self._after_compile(m, r, None, aged, True)
+            else:
+                self._maybe_compiled_to_same(m)
             return exc, ret, out, "aborted"
 
         if injected is not None and exc is not None and exc == injected:
@@ -578,6 +652,8 @@ class Run:
                               f"{opkind} aborted by injected fault left a symbol that is "
                               f"neither the old one nor a fresh compile", fp)
                 self._after_compile(m, r, None, aged, True)
+            else:
+                self._maybe_compiled_to_same(m)
             return exc, ret, out, "aborted"
 
         if need == "yes":
@@ -604,9 +680,16 @@ class Run:
         if aged != m.cur:
             r = self.ref(m.spec(("make", True)))
             if aged != r["mods"]:
+                # the renderer damaged the symbol.  Record it, bring the model back in
+                # step with what the object now holds and go on: the structural checks
+                # of later calls (C15/C16) are about exactly this object state.
                 self.viol("C11", "C11/modules-changed-by-render",
                           f"{opkind}: symbol changed although no compile was due, and it "
-                          f"is not what a fresh compile gives", fp)
+                          f"is not what a fresh compile gives", fp, soft=True)
+                self.resynced = True
+                m.cur = aged
+                m.scribbled = True
+                return exc, ret, out, "clean" if exc is None else "aborted"
             self._after_compile(m, r, None, aged, True)
             return exc, ret, out, "compiled-now" if exc is None else "aborted"
         if need == "unsure" or has_none(aged) or m.compiled is None:
@@ -695,10 +778,24 @@ class Run:
 
     def _print(self, qr, m, op, variant):
         st = op.get("stream", {})
-        stream = SimStream(tty=st.get("tty", True),
-                           fail_write_at=st.get("fail_write_at"),
-                           fail_flush=st.get("fail_flush", False),
-                           err=st.get("errno", errno.EPIPE))
+        sid = st.get("id")
+        if sid is not None and sid in self.streams:
+            # the very same stream object as an earlier call, possibly with another
+            # answer to isatty() or another health
+            stream = self.streams[sid]
+            if stream.tty != st.get("tty", True):
+                self.stats.inc("fault.isatty_answer_changed_on_same_stream")
+            stream.reset(tty=st.get("tty", True), fail_write_at=st.get("fail_write_at"),
+                         fail_flush=st.get("fail_flush", False),
+                         err=st.get("errno", errno.EPIPE))
+            self.stats.inc("probe.stream_object_reused")
+        else:
+            stream = SimStream(tty=st.get("tty", True),
+                               fail_write_at=st.get("fail_write_at"),
+                               fail_flush=st.get("fail_flush", False),
+                               err=st.get("errno", errno.EPIPE))
+            if sid is not None:
+                self.streams[sid] = stream
         use_stdout = st.get("as_stdout", False)
         is_ascii = op["op"] == "print_ascii"
         tty_variant = (not is_ascii) or op.get("tty", False)
@@ -752,6 +849,8 @@ class Run:
                     self.viol("C11", "C11/modules-changed-by-render",
                               f"{opkind} refusal changed the symbol", self.fp(m, opkind))
                 self._after_compile(m, r, None, aged, True)
+            else:
+                self._maybe_compiled_to_same(m)
             return
 
         exc, _, out, state = self._render(qr, m, opkind, refop, call, "C15",
@@ -892,8 +991,13 @@ class Run:
                 if self._pending is not None:
                     pend, self._pending = self._pending, None
                     pend()
-                if self.violations:
+                if self.violations and not self.resynced:
                     raise _Stop()
+                if self.resynced:
+                    self.resynced = False
+                    self.resync_count = getattr(self, "resync_count", 0) + 1
+                    if self.resync_count >= 3 or len(self.violations) >= 4:
+                        raise _Stop()
             if self.case.get("canary", True):
                 self.canary()
         except _Stop:
@@ -936,7 +1040,8 @@ SKELETON = ["add", "clear", "make_fit", "make_nofit", "set_version", "set_level"
 INVALID = {
     "version": [-1, 0, 41, 42, 255, -40],
     "mask_pattern": [-1, 8, 9, 255, {"str": "3"}, {"float": 2.0}, {"list": [1]}],
-    "border": [-1, -3, -4],
+    "border": [-1, -3, -4, -1, {"float": -0.5}, {"float": -0.25}, {"float": -1.5},
+               {"float": 2.7}],
     "box_size": [0, -1, -10],
 }
 VALID_EDGE = {
@@ -989,6 +1094,8 @@ def _gen_stream(rng, tty_variant, focus):
         st["errno"] = rng.choice([errno.EPIPE, errno.ENOSPC, errno.EIO])
     if rng.random() < 0.12:
         st["as_stdout"] = True
+    if rng.random() < 0.35:
+        st["id"] = rng.choice([0, 0, 1])     # a terminal object that later calls see again
     return st
 
 
